@@ -30,6 +30,32 @@ CLAIMED = {
             "Runs of one history do not overlap; SimFS/SimRaw stand in for the disk; all of cutplace, csv and the "
             "io stack run as real code.",
             "DESIGN.md section 5, C08"),
+    "C04": ("exploration",
+            "deterministic simulation: seeded tables stored by independent peers in simulated storage, read through the "
+            "real readers under seeded chunk schedules by an eager or lazy (late-inspecting) client; reference reader "
+            "model as oracle",
+            "Seeded search over CIDs x tables x 4 formats x sources x chunk schedules x consumer lag; every yielded item "
+            "is compared with a reference model, held errors are re-inspected later; evidence, not proof.",
+            "Per-cell verdicts are asked from the real field on a private Cid (C01-C03 not re-modelled); peers "
+            "(text/ODF/XLSX encoders) are written from the specifications.",
+            "DESIGN.md section 5, C04"),
+    "C05": ("exploration",
+            "deterministic simulation: seeded row sequences over tiny key alphabets fed step by step, optional other "
+            "data set validated before on the same Cid, reference model (dict / set) as oracle",
+            "Seeded search over key sets, operators, thresholds, declaration orders, interleaved rejected rows, error "
+            "modes and close placement against a reference model; evidence, not proof.",
+            "A row reaches a check iff its cells were accepted and no earlier-declared check rejected it; at most one "
+            "IsUnique per CID.",
+            "DESIGN.md section 5, C05"),
+    "C06": ("exploration",
+            "deterministic simulation with fault injection: the same stored bytes read in the three error modes under "
+            "different chunk schedules; one container fault (unterminated quote, undecodable bytes, short record, wrong "
+            "delimiter, truncated / corrupted / incomplete archive) placed at a row boundary; prefix oracle",
+            "Seeded search; fault-free reads are compared with the reference model and with each other, faulted reads "
+            "must end in DataFormatError after a prefix of the intact rows in every mode; evidence, not proof.",
+            "Under a fault only a prefix is required (read-ahead decides where the fault surfaces); raise mode may stop "
+            "at an ordinary rejection in front of the fault.",
+            "DESIGN.md section 5, C06"),
 }
 
 PENDING = {key: "designed as a simulation target in DESIGN.md section 5; its check is still under construction and is "
